@@ -19,6 +19,15 @@ with or without reading description, or on another cursor) — or in which the c
 execute(); the final description is judged against the rows then handed out, the model's names / declared types of the
 final statement, and a fresh cursor of the same connection (C06.reexecute / C06.as_executed).
 
+Bound parameters are a factor of their own (kind `bind`): the product BIND_STATEMENTS x BIND_STYLES takes every statement
+kind that can carry a bound value (SELECT / WITH / set operation, CREATE [OR REPLACE] TABLE AS SELECT in its variants,
+CREATE VIEW AS, INSERT VALUES / SELECT, UPDATE [FROM], DELETE [USING], MERGE, and the kinds that hold no expression: SET,
+SHOW LIKE, COMMENT, DEFAULT) under every way of binding (%s, %(name)s, format, ? with a tuple, ? with a list), plus
+executemany(); each goes through the seven traces above.  Combinations fakesnow / DuckDB do not accept (a ? in a view
+definition, in SET / SHOW / COMMENT) do not execute and are only counted.  The histories `next_after_bound` /
+`bound_after_query` (statement kind x style x next statement) read the description of the statement executed NEXT on the
+same cursor — without binds, or with another number of them — and of a bound statement after a described query.
+
 Each trace runs on its own connection; statements that change state get a fresh instance per trace, state-preserving ones share one
 fixture instance per worker (guarded by the ground-truth digest).  The session context is taken immediately before and
 after every read, the raw-DuckDB digest (mc/observe) at the end of every trace and around describe().
@@ -67,11 +76,14 @@ Not demanded
 Class keys: `<kind>:<form>[:<type group>]` of the statement — the input shape, written next to each statement of the
 alphabet; `,at=<read points>` is appended only when some but not all read points fail.  C06.describe_available uses the
 single class `stmt=non_query` for every statement that is not a SELECT / WITH query (one root cause), and the single
-class `stmt=query,cursor=dict` for describe() called on a DictCursor.  Histories use `hist:<form>`.
+class `stmt=query,cursor=dict` for describe() called on a DictCursor.  Histories use `hist:<form>`.  The bind product uses
+`bind:<parameter style>:<statement kind>` (`executemany_<kind>` for executemany) and
+`hist:next_after_bound:<style>:<kind>` / `hist:bound_after_query:<style>:<kind>`.
 """
 from __future__ import annotations
 
 import contextlib
+import copy
 import datetime
 import decimal
 
@@ -175,7 +187,7 @@ _SIDS: set = set()
 
 
 def S(sid, kind, form, sql, **kw):
-    """One statement of the alphabet.  kw: params, style, nop, pre, names, ncols, decl, volatile, pure, post, thorough"""
+    """One statement of the alphabet.  kw: params, style, nop, pre, names, ncols, decl, volatile, pure, post, thorough, many"""
     assert sid not in _SIDS, sid
     _SIDS.add(sid)
     st = {
@@ -194,6 +206,7 @@ def S(sid, kind, form, sql, **kw):
         "pure": kind in ("query", "show", "seeded"),
         "post": None,
         "thorough": False,
+        "many": False,  # executemany(sql, params): params is the sequence of parameter sets
         # a query in the sense of describe(): SELECT / WITH ... SELECT (decided from the statement text)
         "is_query": sql.lstrip().lower().startswith(("select", "with")),
     }
@@ -616,6 +629,111 @@ def _build():
     Q("param_pyformat_named", "pyformat_select", [("%(v)s", "x"), ("%(w)s", "y")], kind="param", params={"v": 1, "w": "a"})
     Q("param_pyformat_named_where", "pyformat_select", ["a"], "from t where a = %(v)s", kind="param", params={"v": 2}, decl=["INT"])
     Q("param_pyformat_percent", "pyformat_select", ["a"], "from t where b like 'x%%' and a = %s", kind="param", params=(1,), decl=["INT"])
+    _build_binds()
+
+
+# ---- statement kind x parameter style ----------------------------------------------------------------------------------------------
+# Every statement kind that can carry a bound value (and the kinds that cannot, which then do not execute and are only
+# counted), each with every way a value can be bound.  `{p}` marks a bind; the values are given in placeholder order.
+# (stmt kind, variant, template, values, what the model knows: names / decl of a query)
+BIND_STATEMENTS = [
+    # queries
+    ("select", "item_where", "select a, {p} as p from t where a > {p} order by a", ["k", 1], dict(names=["A", "P"], decl=["INT", None])),
+    ("select", "cte", "with q as (select a from t where a > {p}) select a from q order by a", [1], dict(names=["A"], decl=["INT"])),
+    ("select", "setop", "select a from t where a = {p} union all select a from src where a = {p} order by 1", [1, 9], dict(names=["A"])),
+    ("select", "subquery", "select a from (select a, {p} as p from t) where p = {p} order by a", ["k", "k"], dict(names=["A"], decl=["INT"])),
+    ("select", "limit", "select a from t order by a limit {p}", [2], dict(names=["A"], decl=["INT"])),
+    ("select", "values", "select * from values ({p}, {p})", [1, "a"], dict(names=["COLUMN1", "COLUMN2"])),
+    ("select", "empty", "select a, b from t where a > {p}", [100], dict(names=["A", "B"], decl=["INT", "VARCHAR"])),
+    ("select", "view", "select a from vw where b = {p}", ["y"], dict(names=["A"], decl=["INT"])),
+    # CREATE TABLE ... AS SELECT
+    ("ctas", "where", "create table n1 as select a, b from t where a > {p}", [1], {}),
+    ("ctas", "item", "create table n1 as select a, {p} as p from t", ["k"], {}),
+    ("ctas", "item_where", "create table n1 as select a, {p} as p from t where a > {p}", [1.5, 1], {}),
+    ("ctas", "or_replace", "create or replace table t as select a, {p} as p from src", ["k"], {}),
+    ("ctas", "or_replace_new", "create or replace table n1 as select a from t where a > {p}", [1], {}),
+    ("ctas", "if_not_exists_new", "create table if not exists n1 as select a from t where a > {p}", [1], {}),
+    ("ctas", "if_not_exists_old", "create table if not exists t as select a from src where a > {p}", [1], {}),
+    ("ctas", "temporary", "create temporary table n1 as select a from t where a > {p}", [1], {}),
+    ("ctas", "transient", "create transient table n1 as select a from t where a > {p}", [1], {}),
+    ("ctas", "qualified", "create table db1.s2.n1 as select a from t where a > {p}", [1], {}),
+    ("ctas", "cte", "create table n1 as with q as (select a from t where a > {p}) select a from q", [1], {}),
+    ("ctas", "empty", "create table n1 as select a from t where a > {p}", [100], {}),
+    # CREATE VIEW ... AS SELECT (a bind in a view definition: inlined under client-side binding only)
+    ("create_view", "where", "create view n1 as select a from t where a > {p}", [1], {}),
+    ("create_view", "or_replace", "create or replace view vw as select a, {p} as p from t", ["k"], {}),
+    # INSERT
+    ("insert", "values", "insert into t values ({p}, {p})", [7, "q"], {}),
+    ("insert", "values_multi", "insert into t values ({p}, {p}), ({p}, {p})", [7, "q", 8, "r"], {}),
+    ("insert", "columns", "insert into t (a) values ({p})", [7], {}),
+    ("insert", "select", "insert into t select a, {p} from src where a > {p}", ["q", 0], {}),
+    ("insert", "select_0", "insert into t select a, b from src where a > {p}", [100], {}),
+    ("insert", "qualified", "insert into db1.s2.t2 values ({p})", [1], {}),
+    # UPDATE
+    ("update", "set_where", "update t set b = {p} where a = {p}", ["k", 1], {}),
+    ("update", "set_all", "update t set b = {p}", ["k"], {}),
+    ("update", "where_0", "update t set b = 'k' where a > {p}", [100], {}),
+    ("update", "from", "update t set b = src.b || {p} from src where t.a = src.a and src.a < {p}", ["k", 5], {}),
+    # DELETE
+    ("delete", "where", "delete from t where a = {p}", [1], {}),
+    ("delete", "where_0", "delete from t where a > {p}", [100], {}),
+    ("delete", "using", "delete from t using src where t.a = src.a and src.a < {p}", [5], {}),
+    ("delete", "in_subquery", "delete from t where a in (select a from src where a < {p})", [5], {}),
+    # MERGE
+    ("merge", "upsert", "merge into t using src on t.a = src.a when matched then update set b = {p} when not matched then insert (a, b) values (src.a, {p})", ["u", "i"], {}),
+    ("merge", "using_subquery", "merge into t using (select a, b from src where a > {p}) s on t.a = s.a when matched then update set b = s.b when not matched then insert (a, b) values (s.a, s.b)", [0], {}),
+    ("merge", "update", "merge into t using src on t.a = src.a when matched then update set b = {p}", ["u"], {}),
+    ("merge", "insert", "merge into t using src on t.a = src.a when not matched then insert (a, b) values (src.a, {p})", ["i"], {}),
+    ("merge", "delete", "merge into t using src on t.a = src.a and src.a < {p} when matched then delete", [5], {}),
+    ("merge", "none", "merge into t using (select a, b from src where a > {p}) s on t.a = s.a when matched then update set b = s.b", [100], {}),
+    # statements a value is bound into although they hold no expression (accepted under client-side binding at most)
+    ("set", "value", "set v = {p}", [1], {}),
+    ("show", "like", "show tables like {p}", ["T%"], {}),
+    ("comment", "on_table", "comment on table t is {p}", ["c"], {}),
+    ("comment", "alter_set", "alter table t set comment = {p}", ["c"], {}),
+    ("create_table", "default", "create table n1 (a int default {p})", [1], {}),
+]
+# (style, paramstyle of the connection, placeholder of bind i, parameter object of the values); numeric (:1) binds are
+# not accepted by fakesnow at all and are left out
+BIND_STYLES = [
+    ("pyformat", "pyformat", lambda i: "%s", tuple),
+    ("pyformat_named", "pyformat", lambda i: f"%(p{i})s", lambda vs: {f"p{i}": v for i, v in enumerate(vs)}),
+    ("format", "format", lambda i: "%s", tuple),
+    ("qmark", "qmark", lambda i: "?", tuple),
+    ("qmark_list", "qmark", lambda i: "?", list),
+]
+# executemany(): the statement once per parameter set; what description describes is the last execution
+BIND_MANY = [
+    ("insert", "values", "insert into t values ({p}, {p})", [[7, "q"], [8, "r"], [9, "s"]]),
+    ("insert", "select", "insert into t select a, {p} from src where a > {p}", [["q", 0], ["r", 100]]),
+    ("update", "set_where", "update t set b = {p} where a = {p}", [["k", 1], ["l", 100]]),
+    ("delete", "where", "delete from t where a = {p}", [[1], [2]]),
+    ("merge", "update", "merge into t using src on t.a = src.a when matched then update set b = {p}", [["u"], ["w"]]),
+    ("select", "where", "select a, b from t where a > {p} order by a", [[100], [1]]),
+]
+# quick tier: the styles that differ in mechanism (inlined into the text / named / handed to the engine)
+QUICK_BIND_STYLES = ("pyformat", "pyformat_named", "qmark")
+
+
+def _fill(template, ph):
+    parts = template.split("{p}")
+    return "".join(part + (ph(i) if i < len(parts) - 1 else "") for i, part in enumerate(parts))
+
+
+def _build_binds():
+    for style, connstyle, ph, mk in BIND_STYLES:
+        thorough = style not in QUICK_BIND_STYLES
+        for skind, variant, template, values, known in BIND_STATEMENTS:
+            kw = dict(known)
+            if "names" in kw:
+                kw["ncols"] = len(kw["names"])
+            S(f"bind_{style}_{skind}_{variant}", "bind", f"{style}:{skind}", _fill(template, ph), style=connstyle, params=mk(values),
+              pure=skind == "select", thorough=thorough, **kw)
+        if style in ("pyformat_named", "qmark_list"):
+            continue  # executemany takes a sequence of sequences
+        for skind, variant, template, seq in BIND_MANY:
+            S(f"bindmany_{style}_{skind}_{variant}", "bind", f"{style}:executemany_{skind}", _fill(template, ph), style=connstyle,
+              params=[mk(v) for v in seq], many=True, pure=skind == "select", thorough=thorough)
 
 
 # ---- column type x expression form (thorough: every declared type; quick: one type per type group) --------------------------------------
@@ -726,6 +844,15 @@ FIXTURE_HIST = [
 ]
 HISTORIES: list = []
 _HIDS: set = set()
+# one statement with bound values per statement kind, executable twice (the reference cursor executes it again)
+HIST_BOUND = [
+    ("select", "select a, {p} as p from t where a > {p} order by a", ["k", 1]),
+    ("ctas", "create or replace table n1 as select a, {p} as p from t where a > {p}", ["k", 1]),
+    ("insert", "insert into t select a, {p} from src where a > {p}", ["q", 0]),
+    ("update", "update t set b = {p} where a = {p}", ["k", 1]),
+    ("delete", "delete from t where a = {p}", [100]),
+    ("merge", "merge into t using src on t.a = src.a when matched then update set b = {p} when not matched then insert (a, b) values (src.a, {p})", ["u", "i"]),
+]
 SEL_T = "select * from t order by 1"
 
 
@@ -819,6 +946,24 @@ def _build_histories():
     H("mutate_pyformat_list", "mutate_params_pyformat", [("x-", "select %s as x", [1]), ("mut", "set0", "one")], names=["X"])
     H("mutate_pyformat_dict", "mutate_params_pyformat", [("x-", "select %(v)s as x", {"v": 1}), ("mut", "setkey", "v", "one")], names=["X"])
     H("mutate_pyformat_dict_clear", "mutate_params_pyformat", [("x", "select %(v)s as x", {"v": 1}), ("mut", "clear")], names=["X"])
+    # (e) statement kind x parameter style x what the cursor executes next: the description of the NEXT statement (without
+    #     binds, or with another number of them) after a statement with bound values, read or not; and the other way round,
+    #     a statement with bound values on a cursor that has described a query with / without binds before
+    nexts = [
+        ("select", "select a, b from t order by a", None, dict(names=["A", "B"], decl=["INT", "VARCHAR"])),
+        ("status", "insert into src values (5, 'v')", None, {}),
+        ("bound_select", "select a, {p} as p, {p} as q from src where a > {p} order by a", [1.5, "k", 0], dict(names=["A", "P", "Q"], decl=["INT", None, None])),
+    ]
+    for style, ph in (("pyformat", lambda i: "%s"), ("qmark", lambda i: "?")):
+        for skind, template, values in HIST_BOUND:
+            for nlbl, ntemplate, nvalues, known in nexts:
+                for how in ("x-", "x"):
+                    H(f"next_{style}_{skind}_{nlbl}_{how}", f"next_after_bound:{style}:{skind}",
+                      [(how, _fill(template, ph), list(values)), ("x", _fill(ntemplate, ph), nvalues and list(nvalues))], style=style, **known)
+            for plbl, ptemplate, pvalues, _ in nexts[::2]:
+                H(f"bound_after_{style}_{skind}_{plbl}", f"bound_after_query:{style}:{skind}",
+                  [("x", _fill(ptemplate, ph), pvalues and list(pvalues)), ("x", _fill(template, ph), list(values))], style=style,
+                  **(dict(names=["A", "P"], decl=["INT", None]) if skind == "select" else {}))
 
 
 _build_histories()
@@ -903,10 +1048,11 @@ def _session(conn):
 
 
 def _params(st):
+    """the parameter object handed to the cursor: the caller's own copy (a list stays a list)"""
     p = st["params"]
-    if isinstance(p, list):
-        return tuple(p)
-    return p
+    if st["many"]:
+        return [copy.copy(x) for x in p]
+    return copy.copy(p)
 
 
 def run_trace(st, trace):
@@ -920,6 +1066,8 @@ def run_trace(st, trace):
         cur = conn.cursor(DictCursor if trace == "dictmid" else SnowflakeCursor)
         params = _params(st)
         if trace == "describe":
+            if st["many"]:
+                params = params[-1]  # what description describes after executemany: the last execution
             s0 = _session(conn)
             g0 = hold.get("start") if not st["pre"] else None
             g0 = g0 or _digest(fs)
@@ -951,7 +1099,9 @@ def run_trace(st, trace):
             if trace == "reuse":
                 cur.execute(WARM_UP)
                 out["warm_desc"] = _meta(cur.description)
-            if params is None:
+            if st["many"]:
+                cur.executemany(st["sql"], params)
+            elif params is None:
                 cur.execute(st["sql"])
             else:
                 cur.execute(st["sql"], params)
@@ -1405,6 +1555,9 @@ def run(ctx: core.Ctx):
         "forms_per_type": [f[0] for f in FORMS],
         "read_points": list(READ_POINTS),
         "traces": list(TRACES),
+        "bind_statement_kinds": sorted({b[0] for b in BIND_STATEMENTS}),
+        "bind_styles": [b[0] for b in BIND_STYLES if ctx.tier != "quick" or b[0] in QUICK_BIND_STYLES],
+        "bind_statements": len([s for s in sts if s["kind"] == "bind"]),
         "histories": len(HISTORIES),
         "history_classes": sorted({h["cls"] for h in HISTORIES}),
     }
